@@ -25,6 +25,7 @@ LEVEL_TEXT = (
     "non-missing values recorded when it was produced. A second slice runs generated models through Program.run and "
     "compares every result with a snapshot taken the moment it was produced. Sampled histories, not exhaustive."
 )
+LEVEL_TEXT += ' Added later: results without any axis (shape ()), parameter sets beyond the fuzzy range.'
 LEVEL_NOTE = "The payload hidden under missing cells is not part of the statement and is ignored; snapshots are deep copies taken by the harness."
 RULE = (
     "Hypothesis draws the producers and a list of steps (command, picks into the current pool respecting fuzziness, "
